@@ -891,9 +891,9 @@ func runC05(c *Ctx) {
 		}
 	}
 	// 3. skeleton sessions (correspondence + direct oracle)
-	nSess, nLong, longLen, nVal := 260, 3, 300, 500
+	nSess, nLong, longLen, nVal := 1300, 10, 300, 3000
 	if c.Thorough() {
-		nSess, nLong, longLen, nVal = 6000, 40, 600, 12000
+		nSess, nLong, longLen, nVal = 36000, 160, 600, 90000
 	}
 	nfn := 0
 	for i := 0; i < nSess; i++ {
